@@ -3,7 +3,7 @@
 
 from __future__ import absolute_import, division
 import re
-from .CommonMixin import CommonMixin
+from .CommonMixin import CommonMixin, formatGcodeNumber
 
 # Regular expression for extracting the parameters from a Gcode command
 GCODE_PARAMS_REGEX = re.compile("^[A-Za-z][0-9]+(?:\\.[0-9]+)?\\s*(.*)$")
@@ -164,8 +164,8 @@ class RetractionState(CommonMixin):
                 # Relative extrusion: the E word is the amount to move, no need to set a position
                 returnCommands.append(
                     "G1 F{f} E{e}".format(
-                        e=-amount / eAxis.unitMultiplier,
-                        f=self.feedRate / eAxis.unitMultiplier
+                        e=formatGcodeNumber(-amount / eAxis.unitMultiplier),
+                        f=formatGcodeNumber(self.feedRate / eAxis.unitMultiplier)
                     )
                 )
                 return returnCommands
@@ -174,7 +174,7 @@ class RetractionState(CommonMixin):
 
             returnCommands.append(
                 # Set logical extruder position
-                "G92 E{e}".format(e=eAxis.nativeToLogical())
+                "G92 E{e}".format(e=formatGcodeNumber(eAxis.nativeToLogical()))
             )
 
             eAxis.current -= amount
@@ -182,8 +182,8 @@ class RetractionState(CommonMixin):
             # Use "G1" over "G0", since an extrusion amount is being supplied
             returnCommands.append(
                 "G1 F{f} E{e}".format(
-                    e=eAxis.nativeToLogical(),
-                    f=self.feedRate / eAxis.unitMultiplier
+                    e=formatGcodeNumber(eAxis.nativeToLogical()),
+                    f=formatGcodeNumber(self.feedRate / eAxis.unitMultiplier)
                 )
             )
 
